@@ -16,7 +16,10 @@ def run(ctx):
     recs, errors = tl.gather(ctx, ns_min=0)
     ctx.extra["exports_that_raised"] = len(errors)
     tl.check(ctx, "DrawC07.cfg", recs, "C07_")
-    ctx.evaluations += 2 * len(recs)
+    # the process's local zone is no input of the property: a slice of the drawings is made in a zone with DST
+    zrecs, zerrors = tl.gather(ctx, ns_min=0, tz="EST5EDT,M3.2.0,M11.1.0", scale=0.2)
+    tl.check(ctx, "DrawC07.cfg", zrecs, "C07_", zone="US-Eastern-DST")
+    ctx.evaluations += 2 * len(recs) + 2 * len(zrecs)
     ctx.nontrivial += len({r["svg"]["sha"] for r in recs if max(n["layer"] for n in r["svg"]["nodes"]) > 0 or r["svg"]["n"] >= 2})
     small = [r for r in recs if r["svg"]["n"] <= 2]
     if small:
